@@ -136,6 +136,50 @@ func sameIndexValue(v, idx ssa.Value) bool {
 		if ok3 && ok4 && fa.Field == fb.Field && types.Identical(fa.X.Type(), fb.X.Type()) && rootOf(fa.X) == rootOf(fb.X) {
 			return true
 		}
+		// two loads of one address-taken local (e.g. filled in by binary.Read(&n)):
+		// equal if everything that can write the local — stores, and calls that
+		// receive its address — happens before both loads and cannot happen again
+		if al, isAl := la.X.(*ssa.Alloc); isAl && lb.X == ssa.Value(al) && al.Referrers() != nil {
+			stable := true
+			var check func(v ssa.Value)
+			seenV := map[ssa.Value]bool{}
+			check = func(v ssa.Value) {
+				if seenV[v] || v.Referrers() == nil {
+					return
+				}
+				seenV[v] = true
+				for _, rf := range *v.Referrers() {
+					switch w := rf.(type) {
+					case *ssa.UnOp, *ssa.DebugRef:
+					case *ssa.Store:
+						if w.Addr == v {
+							if !(precedes(w, la) && precedes(w, lb)) || reaches(la.Block(), w.Block()) || reaches(lb.Block(), w.Block()) {
+								stable = false
+							}
+						} else {
+							stable = false // the address itself is stored somewhere
+						}
+					case *ssa.MakeInterface:
+						check(w)
+					case *ssa.ChangeType:
+						check(w)
+					case ssa.CallInstruction:
+						if !(precedes(w, la) && precedes(w, lb)) || reaches(la.Block(), w.Block()) || reaches(lb.Block(), w.Block()) {
+							stable = false
+						}
+						if _, isGo := w.(*ssa.Go); isGo {
+							stable = false
+						}
+					default:
+						stable = false
+					}
+				}
+			}
+			check(al)
+			if stable {
+				return true
+			}
+		}
 	}
 	return false
 }
@@ -361,14 +405,56 @@ func checkC03(c *Ctx, r *Report) {
 	r.NotDecided = "Byte identity of the committed file as such (semantics of io.Copy, Seek and the file system); fairness among concurrent writers."
 
 	r1 := r.Rule("R1", "E-GUARD+E-ORDER/ok", "the function that records a piece as complete is called only on the equal side of (checksum of copied bytes == metainfo sum of the same index) and in the success region of the copy, whose source is teed into that checksum and whose destination offset is computed from the same index", 1)
-	mpc := r.MustFunc(r1, "(*"+pkgAgentSt+".Torrent).markPieceComplete")
+	// the status recorder: the function that persists a piece's complete status —
+	// a method of its own, or the write function itself when that code is inline
+	type recSite struct {
+		Caller *ssa.Function
+		Instr  ssa.CallInstruction
+		pi     ssa.Value
+	}
+	var recSites []recSite
+	mpc := c.Func("(*" + pkgAgentSt + ".Torrent).markPieceComplete")
 	if mpc != nil {
+		r.Analysed(mpc)
 		for _, cs := range c.CallsTo(funcName(mpc)) {
-			fn := cs.Caller
-			if c.isFixture(fn) {
+			if !c.isFixture(cs.Caller) {
+				recSites = append(recSites, recSite{cs.Caller, cs.Instr, cs.Instr.Common().Args[1]})
+			}
+		}
+	} else {
+		for _, fn := range c.FuncsIn(pkgAgentSt) {
+			if c.isFixture(fn) || recvTypeName(fn) != pkgAgentSt+".Torrent" {
 				continue
 			}
-			pi := cs.Instr.Common().Args[1]
+			for _, cs := range callsIn(fn) {
+				if lastSeg(cs.Callee) != "SetMetadataAt" {
+					continue
+				}
+				a := cs.Instr.Common().Args
+				pi := a[len(a)-1]
+				for i := 0; i < 3; i++ {
+					if cv, isCv := pi.(*ssa.Convert); isCv {
+						pi = cv.X
+					}
+				}
+				mpc = fn
+				recSites = append(recSites, recSite{fn, cs.Instr, pi})
+			}
+		}
+		if mpc == nil {
+			r.Unresolved(r1, "no function of the agent torrent persists the piece status (SetMetadataAt)")
+		} else {
+			r.Analysed(mpc)
+		}
+	}
+	c03RecorderSites = nil
+	for _, s := range recSites {
+		c03RecorderSites = append(c03RecorderSites, s.Instr)
+	}
+	if mpc != nil {
+		for _, cs := range recSites {
+			fn := cs.Caller
+			pi := cs.pi
 			var sumCall *ssa.Call
 			okSum := guardedBy(cs.Instr, eqFact(func(b *ssa.BinOp) bool {
 				var s, g ssa.Value
@@ -432,7 +518,10 @@ func checkC03(c *Ctx, r *Report) {
 		if ok {
 			// the offset written is the piece index
 			a := sets[0].Instr.Common().Args
-			ok = mentions(a[len(a)-1], func(v ssa.Value) bool { return v == mpc.Params[1] }, 4)
+			ok = mentions(a[len(a)-1], func(v ssa.Value) bool {
+				p, isP := v.(*ssa.Parameter)
+				return isP && p.Parent() == mpc && p.Type().String() == "int"
+			}, 4)
 		}
 		r.Check(ok, r1, mpc, "status byte then memory", nil, "on-disk status written (same index) before in-memory mark and counter", "the in-memory completion mark / counter is updated without the on-disk status byte of the same piece having been written successfully")
 	}
@@ -538,7 +627,13 @@ func checkC03(c *Ctx, r *Report) {
 	// its retry counted twice, and the commit would fire one piece early.
 	r8 := r.Rule("R8", "E-ORDER(paths)", "in writePiece every path on which the status recorder (markPieceComplete) returned nil ends in a return that is provably nil (no later failure, no deferred closure that can overwrite the result)", 1)
 	if wpi := r.MustFunc(r8, "(*"+pkgAgentSt+".Torrent).writePiece"); wpi != nil {
-		for _, mc := range callsInNamed(wpi, "(*"+pkgAgentSt+".Torrent).markPieceComplete") {
+		var recInWrite []*CallSite
+		for _, ri := range c03RecorderSites {
+			if ri.Parent() == wpi {
+				recInWrite = append(recInWrite, &CallSite{Caller: wpi, Instr: ri})
+			}
+		}
+		for _, mc := range recInWrite {
 			n, bad := 0, 0
 			var where ssa.Instruction = mc.Instr
 			forEachPath(wpi, 5000, func(p Path) {
